@@ -129,10 +129,10 @@ def thb_virtual_step_full : Prop :=
             ((H.Tl lv).mul (H.representFine lv true none false))
 
 /-- full `prolongate_to` statement: `I_f · P = T_{Lc-1 → Lf-1} · I_c` on HB coefficients.
-**False on the current tree for finite disparity** (defect D13): see
-`prolongate_to_finite_disparity_wrong`. -/
-def prolongate_to_spec (C F : HSp Rat) (d : Option Nat) (fixed : Bool) : Prop :=
-  Mat.Eqv ((F.representFine (F.numlevels - 1) false none false).mul (prolongateTo C F d fixed))
+It was **false for the loop bounds of the earlier source under finite disparity** (defect D13,
+repaired in /repo by 6ce171d): see `prolongate_to_finite_disparity_wrong` (`asCoded_D13 = true`). -/
+def prolongate_to_spec (C F : HSp Rat) (d : Option Nat) (asCoded_D13 : Bool) : Prop :=
+  Mat.Eqv ((F.representFine (F.numlevels - 1) false none false).mul (prolongateTo C F d asCoded_D13))
           ((F.tprodN (F.numlevels - C.numlevels) (C.numlevels - 1)).mul
             (C.representFine (C.numlevels - 1) false none false))
 
@@ -235,18 +235,18 @@ example :
   decide +kernel
 
 /-- D13: 1-D, p = 2, 6 cells, `disparity = 1`, coarse unrefined, fine = refine `{0:[5]}`, `{1:[11]}`.
-With the coded loop bound `min(f_numlevels, lv + disparity + 1)` the last coarse function is not
+With the loop bound `min(f_numlevels, lv + disparity + 1)` of the source before 6ce171d the last coarse function is not
 prolongated to level 2: the entry for (fine dof 11 = level-2 function 25, coarse dof 7) is `0`
 although the tensor-product prolongation has `1` there. -/
 theorem prolongate_to_finite_disparity_wrong :
-    (prolongateTo c13 f13 (some 1) false).f 11 7 = 0 ∧
-    ((f13.representFine 2 false none false).mul (prolongateTo c13 f13 (some 1) false)).f 25 7 = 0 ∧
+    (prolongateTo c13 f13 (some 1) true).f 11 7 = 0 ∧
+    ((f13.representFine 2 false none false).mul (prolongateTo c13 f13 (some 1) true)).f 25 7 = 0 ∧
     ((f13.tprodN 2 0).mul (c13.representFine 0 false none false)).f 25 7 = 1 := by
   decide +kernel
 
-/-- with both loop bounds replaced by `f_numlevels` (the proposed repair) the same entry is right -/
+/-- with both loop bounds `f_numlevels` (the code as it is now) the same entry is right -/
 theorem prolongate_to_fixed_witness :
-    ((f13.representFine 2 false none false).mul (prolongateTo c13 f13 (some 1) true)).f 25 7 = 1 := by
+    ((f13.representFine 2 false none false).mul (prolongateTo c13 f13 (some 1) false)).f 25 7 = 1 := by
   decide +kernel
 
 end Pyiga.Props.C05
